@@ -135,7 +135,8 @@ const B_DRAIN: u8 = 8;
 const B_EXTEND: u8 = 9;
 const B_CLONE_SWAP: u8 = 10;
 const B_REBUILD: u8 = 11;
-const B_NOPS: usize = 12;
+const B_DRAIN_ADAPT: u8 = 12; // a = which Iterator method, b = n
+const B_NOPS: usize = 13;
 
 static B_OPS: [OpSpec; B_NOPS] = [
     OpSpec { name: "push", shrink: 0 },
@@ -150,8 +151,9 @@ static B_OPS: [OpSpec; B_NOPS] = [
     OpSpec { name: "extend", shrink: 1 },
     OpSpec { name: "clone_swap", shrink: 0 },
     OpSpec { name: "rebuild_from_raw_parts", shrink: 0 },
+    OpSpec { name: "drain_iterator_method", shrink: 2 },
 ];
-const B_WEIGHTS: [u32; B_NOPS] = [10, 6, 5, 3, 3, 2, 1, 1, 2, 2, 1, 1];
+const B_WEIGHTS: [u32; B_NOPS] = [10, 6, 5, 3, 3, 2, 1, 1, 2, 2, 1, 1, 2];
 
 // faults
 const F_RECOVERED: usize = 0;
@@ -315,6 +317,7 @@ fn drive_bounded<S: SnapshotBounded>(
                 B_GET | B_GET_MUT => Op::ka(k, r.range(0, mlen as i64 + 1)),
                 B_INDEX | B_INDEX_MUT => Op::ka(k, r.range(0, mlen.max(1) as i64 - 1)),
                 B_DRAIN => Op::ka(k, r.range(0, cap as i64 + 1)),
+                B_DRAIN_ADAPT => Op::kab(k, r.range(0, 5), r.range(0, mlen as i64 + 2)),
                 B_EXTEND => Op::ka(k, r.range(0, cap as i64 + 2)),
                 _ => Op::k(k),
             })
@@ -430,6 +433,63 @@ fn drive_bounded<S: SnapshotBounded>(
                     obs.fault(F_PARTIAL_DRAIN);
                 }
                 check_eq!(obs, got, want, "bounded.drain", "drain().take({})", k);
+            }
+            B_DRAIN_ADAPT => {
+                // the provided Iterator methods must behave as their default definitions over
+                // next() == pop(): whatever they skip is popped, whatever they do not reach stays
+                let n = op.b.max(0) as usize;
+                let mut pop_n = |m: &mut VecDeque<u64>, k: usize| -> Option<u64> {
+                    // default Iterator::nth(k): k + 1 calls of next(), the last one is returned
+                    let mut last = None;
+                    for _ in 0..=k {
+                        last = m.pop_front();
+                        if last.is_none() {
+                            break;
+                        }
+                    }
+                    last
+                };
+                match op.a.rem_euclid(6) {
+                    0 => {
+                        let got = rb.drain().nth(n);
+                        let want = pop_n(&mut model, n);
+                        check_eq!(obs, got, want, "bounded.drain-nth", "drain().nth({})", n);
+                    }
+                    1 => {
+                        let got = rb.drain().skip(n).next();
+                        let want = pop_n(&mut model, n);
+                        check_eq!(obs, got, want, "bounded.drain-skip", "drain().skip({}).next()", n);
+                    }
+                    2 => {
+                        let step = n + 1;
+                        let got: Vec<u64> = rb.drain().step_by(step).take(2).collect();
+                        let mut want = Vec::new();
+                        if let Some(x) = model.pop_front() {
+                            want.push(x);
+                            if let Some(y) = pop_n(&mut model, step - 1) {
+                                want.push(y);
+                            }
+                        }
+                        check_eq!(obs, got, want, "bounded.drain-step-by", "drain().step_by({}).take(2)", step);
+                    }
+                    3 => {
+                        let got = rb.drain().count();
+                        let want = model.len();
+                        model.clear();
+                        check_eq!(obs, got, want, "bounded.drain-count", "drain().count()");
+                    }
+                    4 => {
+                        let got = rb.drain().last();
+                        let want = model.back().copied();
+                        model.clear();
+                        check_eq!(obs, got, want, "bounded.drain-last", "drain().last()");
+                    }
+                    _ => {
+                        let d = rb.drain();
+                        let (lo, hi) = d.size_hint();
+                        check_eq!(obs, (lo, hi), (model.len(), Some(model.len())), "bounded.drain-size-hint", "drain().size_hint()");
+                    }
+                }
             }
             B_EXTEND => {
                 let k = op.a.max(0) as usize;
@@ -623,6 +683,7 @@ const XP_N1: usize = 0;
 const XP_LOOPED: usize = 1;
 const XP_PUSH_RETURNS_PUSHED: usize = 2;
 const XP_SET_FIRST_GE_N: usize = 3;
+const XP_HUGE_INDEX: usize = 4;
 
 fn fixed_views<S: SnapshotBounded>(
     rb: &Fixed<S>,
@@ -710,7 +771,14 @@ fn drive_fixed<S: SnapshotBounded>(
             let k = r.weighted(&weights) as u8;
             Some(match k {
                 X_GET | X_GET_MUT | X_INDEX | X_INDEX_MUT | X_SET_FIRST => {
-                    Op::ka(k, r.range(0, 4 * n as i64))
+                    if r.chance(1, 12) {
+                        // "any index wraps modulo N": far beyond the length, up to usize::MAX
+                        let big: [u64; 8] = [1 << 32, (1 << 32) + 1, (1 << 33) - 1, 1 << 40, 1 << 63, u64::MAX, u64::MAX - 1, u64::MAX / 3];
+                        let b = *r.pick(&big);
+                        Op::ka(k, b.wrapping_add(r.below(8)).max(1 << 32) as i64)
+                    } else {
+                        Op::ka(k, r.range(0, 4 * n as i64))
+                    }
                 }
                 X_ITER_LOOP => Op::ka(k, r.range(0, 3 * n as i64)),
                 X_EXTEND => Op::ka(k, r.range(0, 2 * n as i64 + 1)),
@@ -721,7 +789,11 @@ fn drive_fixed<S: SnapshotBounded>(
         done += 1;
         obs.tick(op.k);
         obs.note(op.a as u64);
-        let arg = op.a.max(0) as usize;
+        // index arguments are usize: the replay format stores them as i64 bit patterns
+        let arg = if matches!(op.k, X_GET | X_GET_MUT | X_INDEX | X_INDEX_MUT | X_SET_FIRST) { op.a as u64 as usize } else { op.a.max(0) as usize };
+        if arg as u64 >= 1 << 32 {
+            obs.probe(XP_HUGE_INDEX);
+        }
         match op.k {
             X_PUSH => {
                 let v = tags.next();
@@ -900,6 +972,7 @@ impl Scenario for FixedScenario {
             "iter_loop taken past N",
             "push return checked against value pushed N pushes earlier",
             "set_first(i >= N)",
+            "index >= 2^32 (up to usize::MAX)",
         ]
     }
     fn rule(&self) -> &'static str {
